@@ -17,7 +17,7 @@ from concurrent.futures import ProcessPoolExecutor
 import refmpq
 import sup
 
-RULE = ("direction A: full product of the published-format subset (V1/V2 x sector shift {0,1,3,5} x {none,zlib,bzip2} x {plain,encrypted,encrypted+fix-key} x listfile on/off, "
+RULE = ("direction A: full product of the published-format subset (V1/V2 x sector shift {0,1,3,5} (+ shift 10 with units of 270-470 KiB under encryption) x {none,zlib,bzip2} x {plain,encrypted,encrypted+fix-key} x listfile on/off, "
         "x file-set repetitions in thorough) built by ArchiveBuilder with sector-straddling file sets plus odd-length incompressible files, files at the compressor's break-even length and a path-less name; every archive is "
         "parsed and fully extracted by the independent reference reader and 9 header fields are compared. direction B: the reference writer emits archives over the same subset "
         "(+ hash table sizes 4..64 with deleted markers in probe chains, optional junk/user-data prefix, single-unit option, zlib streams with default / StormLib unit-sized window / varied level+window, bzip2 levels) which Archive reads back under several spellings. "
@@ -177,14 +177,28 @@ def gen_ref_archive(args):
             fh.write(data)
         fclass = "FILL"
         mf.append({"name": name, "content": p, "len": n, "fclass": fclass, "haspath": bool(comp), "multi": n > ss and not (single and n > 0), "sector_crc": crc, "locale": loc})
+    # every sixth archive: one encrypted single-unit file longer than 256 KiB (64 Ki dwords under one key stream)
+    if k % 6 == 1 and encm > 0:
+        n = 270000 + rng.randrange(150000)
+        data = _content(rng, "random", n)
+        name = f"Big\\Unit{k}.bin"
+        i = len(files)
+        files.append(refmpq.RefFile(name, data, method, True, encm == 2, True))
+        p = os.path.join(outdir, f"b-{k}.f{i}")
+        with open(p, "wb") as fh:
+            fh.write(data)
+        mf.append({"name": name, "content": p, "len": n, "fclass": "FILL", "haspath": True, "multi": False, "sector_crc": False, "locale": 0})
     n_entries = len(files) + (1 if listfile else 0)
     hs = 4
     while hs < n_entries + deleted + 1:
         hs *= 2
     if rng.random() < 0.3:
         hs *= 2
+    # where the two tables stand: the header carries both positions, a writer is free to put either first, behind or in front
+    # of the file data
+    layout = ["end-hash-first", "end-block-first", "front-hash-first", "front-block-first", "end-hash-first"][(k + k // 5) % 5]
     arc, info = refmpq.write_archive(files, version=version, shift=shift, hash_size=hs, prefix=prefix, user_data=user_data,
-                                     deleted_probes=deleted, listfile=listfile, listfile_method=method or 0x02)
+                                     deleted_probes=deleted, listfile=listfile, listfile_method=method or 0x02, table_layout=layout)
     # trigger predicates per file (signatures are built from these, DESIGN.md §4): does the key depend on the directory
     # part; does some encrypted stored unit have a length not divisible by 4; is it a multi-sector file stored without
     # compression (no sector table, per-sector keys)
@@ -199,8 +213,8 @@ def gen_ref_archive(args):
         fh.write(arc)
     shape = f"v{version}|prefix{'-userdata' if user_data else ('-junk' if prefix else '-none')}"
     opts = {"version": version, "shift": shift, "method": method, "enc": encm, "single_unit": single, "prefix": prefix, "user_data": user_data,
-            "deleted_probes": info["deleted_planted"], "hash_size": hs, "listfile": listfile, "zparams": zstats}
-    man = {"idx": k, "class": f"B|v{version}|s{shift}|m{method}|e{encm}|su{int(single)}|p{prefix}|ud{int(user_data)}", "archive": ap, "files": mf, "opts": opts, "shape": shape}
+            "deleted_probes": info["deleted_planted"], "hash_size": hs, "listfile": listfile, "zparams": zstats, "table_layout": layout}
+    man = {"idx": k, "class": f"B|v{version}|s{shift}|m{method}|e{encm}|su{int(single)}|p{prefix}|ud{int(user_data)}|t-{layout}", "archive": ap, "files": mf, "opts": opts, "shape": shape}
     with open(os.path.join(outdir, f"b-{k}.json"), "w") as fh:
         json.dump(man, fh)
     return k, (zstats if method == 0x02 else {})
